@@ -8,7 +8,10 @@ import (
 	"verif/world"
 )
 
-type c13mon struct{ stats *sim.Stats }
+type c13mon struct {
+	stats *sim.Stats
+	lv    authLevels // browser → how its session came to name its user (see c07.go)
+}
 
 func routeOf(s *sim.Sim, rec *world.Rec) string {
 	p := strings.SplitN(rec.Target, "?", 2)[0]
@@ -23,6 +26,7 @@ var enrolRoutes = map[string]bool{
 func (m c13mon) Check(s *sim.Sim, st *sim.Step) []*sim.Violation {
 	a, rec := st.Act, st.Rec
 	var vs []*sim.Violation
+	defer m.lv.observe(s, st) // the ledger below is the one from before this request
 	if rec.Kind != "http" {
 		// programmatic operations never touch 2FA settings
 		for _, d := range rec.Diff() {
@@ -34,7 +38,10 @@ func (m c13mon) Check(s *sim.Sim, st *sim.Step) []*sim.Violation {
 	}
 	route := routeOf(s, rec)
 	owner := rec.SessIn["uid"]
-	full := owner != "" && rec.SessIn["halfauth"] == ""
+	// fully authenticated: the session says so AND the ledger agrees — a session that names its user
+	// only on the strength of a remember cookie is half-authenticated whatever has become of its mark
+	full := owner != "" && rec.SessIn["halfauth"] == "" && m.lv[a.B] != "half"
+
 	sessState := "anonymous"
 	switch {
 	case owner != "" && !full:
@@ -264,6 +271,29 @@ var c13Templates = []sim.Template{
 		}
 		return sc
 	}},
+	{Name: "remembered-2fa-account-password-step-then-settings", F: func(s *sim.Sim) []*sim.Action {
+		// an account WITH a second factor, its browser authenticated by the remember cookie only; the
+		// password step of a new login is parked at the second factor and never completed; settings
+		// requests from that session are requests of a half-authenticated session
+		if !s.RememberActive() || !s.Cfg.Has("auth") || len(s.Cfg.TwoFA) == 0 {
+			return nil
+		}
+		k := s.Cfg.TwoFA[s.R.Intn(len(s.Cfg.TwoFA))]
+		v := findAcct(s, func(u *world.User) bool {
+			return u.Confirmed && ((k == "totp" && u.TOTPSecretKey != "" && u.SMSPhone == "") || (k == "sms" && u.SMSPhone != "" && u.TOTPSecretKey == ""))
+		})
+		if v < 0 {
+			return nil
+		}
+		sc := []*sim.Action{act("login", 0, v, "ok", "rm", "true"), act(k+"_validate", 0, -9, "ok"), act("dropsid", 0, -9, ""), act("visit", 0, -9, "", "route", "/public"),
+			act("advance", 0, -9, "", "d", "31s"), act("login", 0, v, "ok"), act("regen", 0, -9, ""), act(k+"_remove", 0, -9, pickS(s.R, "ok", "recovery"))}
+		if k == "totp" {
+			sc = append(sc, act("totp_setup", 0, -9, ""))
+		} else {
+			sc = append(sc, act("sms_setup", 0, -9, "fresh"))
+		}
+		return sc
+	}},
 	{Name: "enrol-totp", F: func(s *sim.Sim) []*sim.Action {
 		if !s.Cfg.Has2FA("totp") || s.Cfg.TwoFAEmail || !s.Cfg.Has("auth") {
 			return nil
@@ -290,7 +320,7 @@ var c13Profile = &sim.Profile{
 func init() {
 	register(&Check{
 		ID: "C13", Level: "exploration",
-		Rule:  "histories of setup/confirm/remove/regenerate/e-mail-verify requests from fully authenticated, half-authenticated (remember), password-step-only and anonymous sessions of 4 accounts, code/token strings incl. empty, other sessions' tokens, codes delivered to other numbers; directed templates (empty e-mail token in a session that never requested one, full e-mail cycle incl. other session's token and re-gating after enrolment, enrolment code replayed on the remove page, two setups inside the resend limit with different numbers, half-authed enrolment attempts). Oracle: every diff in TOTPSecretKey/SMSPhone/RecoveryCodes of U must come from a request whose session at request start is uid=U without halfauth and carries the proof for exactly that change (code valid for the session's enrolment secret == stored secret; code the outbox delivered to the number being enrolled == stored number; current code / unused recovery code for removal; full auth for regeneration), the only exception being consumption of a presented recovery code; with e-mail authorisation required an enrolment handler runs only in a session the ledger saw present the token mailed to that account for that session, and the authorisation is spent by a completed enrolment. distinct_nontrivial = distinct (route, code class, session state, account state, e-mail gate, handler ran, mode, fields changed) signatures.",
+		Rule:  "histories of setup/confirm/remove/regenerate/e-mail-verify requests from fully authenticated, half-authenticated (remember), password-step-only and anonymous sessions of 4 accounts, code/token strings incl. empty, other sessions' tokens, codes delivered to other numbers; directed templates (empty e-mail token in a session that never requested one, full e-mail cycle incl. other session's token and re-gating after enrolment, enrolment code replayed on the remove page, two setups inside the resend limit with different numbers, half-authed enrolment attempts; a remembered browser of a 2FA account whose new login stops at the password step, then settings requests). 'Fully authenticated' is what the session says AND what the ledger of how the session got its user says. Oracle: every diff in TOTPSecretKey/SMSPhone/RecoveryCodes of U must come from a request whose session at request start is uid=U without halfauth and carries the proof for exactly that change (code valid for the session's enrolment secret == stored secret; code the outbox delivered to the number being enrolled == stored number; current code / unused recovery code for removal; full auth for regeneration), the only exception being consumption of a presented recovery code; with e-mail authorisation required an enrolment handler runs only in a session the ledger saw present the token mailed to that account for that session, and the authorisation is spent by a completed enrolment. distinct_nontrivial = distinct (route, code class, session state, account state, e-mail gate, handler ran, mode, fields changed) signatures.",
 		Units: func(t string) int { return tierN(t, 360, 6000) },
 		Run: func(c *RunCtx, unit int) {
 			r := Rng(c.Seed, "C13", unit)
@@ -312,7 +342,7 @@ func init() {
 				c.Stats.Inconclusive = append(c.Stats.Inconclusive, "world: "+err.Error())
 				return
 			}
-			sim.RunHistory(s, c13Profile, []sim.Monitor{c13mon{c.Stats}}, c.Stats, unit)
+			sim.RunHistory(s, c13Profile, []sim.Monitor{c13mon{stats: c.Stats, lv: authLevels{}}}, c.Stats, unit)
 		},
 		Floors: func(t string) map[string]int {
 			return map[string]int{"totp-enabled": 10, "totp-disabled": 3, "sms-enabled": 10, "regenerated": 5, "enrolment-route-gated": 20, "enrolment-route-after-email-authorisation": 10, "recovery-code-consumed": 5}
